@@ -118,6 +118,14 @@ func longLists() [][]int {
 		}
 		out = append(out, asc, desc, m5, m37)
 	}
+	// every length from 5 to 16 (strategy switches by size or by number of distinct values): all distinct, and with repeats
+	for n := 5; n <= 16; n++ {
+		distinct, repeats := make([]int, n), make([]int, n)
+		for i := 0; i < n; i++ {
+			distinct[i], repeats[i] = (i*5)%n+50, (i*3)%(n-2)+50
+		}
+		out = append(out, distinct, repeats)
+	}
 	return out
 }
 
